@@ -187,6 +187,35 @@ def run(ctx):
     if not held:
         run.finding(Finding(R1, ADV, "sort keys changed: %s" % sorted(map(sorted, keyfields)), site=f.loc()))
 
+    # "amount" of an entry: debited - credited for outgoing types {TxSent, TxSentCancelled}, credited - debited otherwise;
+    # the two amount filters and the TotalAmount sort key must agree on that (sibling cross-check)
+    amount_closures = [g for g in [db.fns[k] for k in db.closures_of(ADV, recursive=True)] if {"tx_type", "amount_debited", "amount_credited"} <= fields_read(g, TLE)]
+    if len(amount_closures) != 3:
+        run.error("C19.R1: expected 3 closures computing an entry's amount (min_amount, max_amount, TotalAmount sort), found %d" % len(amount_closures))
+    for g in amount_closures:
+        fl = vf.get_flow(g)
+        outgoing = set()
+        true_edges = set()
+        for x in cfg.comparisons(g):
+            if x.op == "Eq":
+                for a, b_ in ((fl.of_operand(x.l), fl.of_operand(x.r)), (fl.of_operand(x.r), fl.of_operand(x.l))):
+                    if vf.has_field(a, TLE, "tx_type"):
+                        lits = [y[2] for y in vf.producers(g, x.l) | vf.producers(g, x.r) if y[0] == "agg" and y[1] == TLT]
+                        if len(lits) == 1:
+                            outgoing.add(lits[0])
+                            true_edges |= x.true_edges
+        subs = [(b, t) for b, t in g.calls() if (t.get("f") or "").endswith("ops::arith::Sub::sub") or (t.get("fa") or "").endswith("Sub>::sub")]
+        deb_first = [b for b, t in subs if vf.has_field(vf.producers(g, t["a"][0]) | fl.of_operand(t["a"][0]), TLE, "amount_debited") and not vf.has_field(vf.producers(g, t["a"][0]), TLE, "amount_credited")]
+        cred_first = [b for b, t in subs if vf.has_field(vf.producers(g, t["a"][0]) | fl.of_operand(t["a"][0]), TLE, "amount_credited") and not vf.has_field(vf.producers(g, t["a"][0]), TLE, "amount_debited")]
+        held = outgoing == {"TxSent", "TxSentCancelled"} and len(deb_first) == 1 and len(cred_first) == 1
+        if held:
+            # debited - credited only on an outgoing edge; credited - debited never on one
+            out_reach = cfg.reach(g, starts=[d for (_s, d) in true_edges])
+            held = cfg.must_pass(g, true_edges, set(deb_first))[0] and not any(b in out_reach for b in cred_first)
+        run.instance(R1, {"closure": pp.short(g.id).split("::")[-1], "obligation": "amount = debited - credited exactly for {TxSent, TxSentCancelled}, credited - debited otherwise", "outgoing_types": sorted(outgoing)}, held=held)
+        if not held:
+            run.finding(Finding(R1, ADV, "an entry's amount is not computed as debited - credited exactly for {TxSent, TxSentCancelled} (siblings disagree)", site=g.loc(), detail="outgoing=%s subs=%d/%d" % (sorted(outgoing), len(deb_first), len(cred_first))))
+
     R3 = "C19.R3"
     run.rule(R3, "both query paths restrict to the account argument", floor=2)
     from .C04 import account_comparisons, closure_true_requires
